@@ -342,6 +342,11 @@ def inplace_history(res, case, vals, sub):
 def reduce4_case(case, res):
     """length-4 arrays and their 2x2 reshapes over the six hardest values (all 6^4), quick and thorough."""
     hard = [SUBSET[i] for i in (1, 2, 3, 4, 8, 9)]
+    if case.get("first", 0) % 2:
+        # near-ties whose single-double value rounds onto count + 1/2 (the fraction's last bit decides the order)
+        n51 = float(2 ** 51 + 1)
+        hard = [(n51, float(np.nextafter(0.3, 1))), (n51, 0.3), (4.0, 0.5 - 3 * 2.0 ** -54), (4.0, 0.5 - 4 * 2.0 ** -54),
+                (-n51, float(np.nextafter(-0.3, -1))), (-n51, -0.3)]
     for combo in itertools.product(range(len(hard)), repeat=4):
         if combo[0] != case.get("first", combo[0]) or combo[1] != case.get("second", combo[1]):
             continue
@@ -436,8 +441,49 @@ def parse_case(case, res):
 DEC = re.compile(r"^([+-]?)(\d+)(?:\.(\d*))?(j?)$")
 
 
+def render_dense(case, res, n):
+    """Default rendering (no precision) of EVERY fraction i/4999 - 1/2: within 1e-16 cycle, and parses back to the same phase."""
+    bad = 0
+    for i in range(5000):
+        f = i / 4999 - 0.5
+        p = mk(n, f)
+        pv = ex(p)[0]
+        if abs(pv) > 2 ** 52:
+            continue
+        res.transitions += 2
+        try:
+            s_ = str(p.to_string())
+            ok = bool(DEC.match(s_)) and abs(F(s_) - pv) <= F(1, 10 ** 16) and abs(ex(Phase.from_string(s_))[0] - pv) <= TOL
+        except Exception as e:
+            ok, s_ = False, repr(e)
+        if not ok:
+            bad += 1
+            if bad <= 2:
+                res.violation("to_string|dense fractions|value", f"to_string() of ({n!r}, {f!r}) = {s_!r}: off by "
+                              f"{float(abs(F(s_) - pv)) if DEC.match(str(s_)) else 'n/a'!r} (> 1e-16) or does not parse back", case,
+                              {"n": n, "f": repr(f)})
+    # imaginary phases: fixed-point format shows exactly the requested number of decimals
+    for f in (0.5, 0.25, -0.3):
+        q = mk(n, f) * 1j
+        for k in (0, 3, 7):
+            res.transitions += 1
+            try:
+                s_ = format(q, f".{k}f")
+                body = s_[:-1] if s_.endswith("j") else None
+                m = DEC.match(body) if body is not None else None
+                if not m or len(m.group(3) or "") != k:
+                    res.violation("format|imaginary phase", f"format(1j*p, '.{k}f') = {s_!r}: not a decimal with {k} digits followed by j", case,
+                                  {"n": n, "f": repr(f), "k": k})
+            except Exception as e:
+                res.violation("format|imaginary phase raised", f"{type(e).__name__}: {e}", case, {"k": k})
+    if not bad:
+        res.hits["dense fractions rendered"] += 1
+
+
 def render_case(case, res):
     n = CNT[case["ci"]]
+    render_dense(case, res, n)
+    render_dense(case, res, -n)
     fr = FRC + [0.1, 0.25, 0.2, 0.04, 0.96, 0.999999, 0.49999999999999994, 1e-16, 2e-17, 1e-300, 0.75, 0.05, 0.949999]
     for f in fr:
         for sign in (1, -1):
@@ -518,8 +564,7 @@ def render_case(case, res):
                 res.violation("to_string|alwayssign raised", f"{type(e).__name__}: {e} [{sub}]", case, sub)
             for k in list(range(0, 13)) + [15, 17, 20, 25, 30]:          # ("any number of decimals")
                 forms = [("to_string(precision)", lambda: str(p.to_string(precision=k)))]
-                if k >= 1:
-                    forms.append(("format", lambda: format(p, f".{k}f")))
+                forms.append(("format", lambda: format(p, f".{k}f")))
                 for nm, fn in forms:
                     try:
                         s = fn()
@@ -596,7 +641,7 @@ def main(argv=None):
         PID, gen_cases=gen_cases, check_case=check_case, describe=describe,
         required_hits=["near-tie below double resolution", "exact tie", "array with exact ties", "array with sub-ulp near-ties",
                        "2-D reshapes", "zero or missing integer part", "zero or missing fractional part", "D exponent",
-                       "round trip", "precision < 2 with small fraction", "use, update in place, sort again", "transposed view", "unit keyword spellings", "ambient decimal context and print options"],
+                       "round trip", "precision < 2 with small fraction", "use, update in place, sort again", "transposed view", "unit keyword spellings", "ambient decimal context and print options", "dense fractions rendered"],
         assumptions=["for exact ties any index/permutation that realises the exact ordering is accepted",
                      "the imaginary flag of an exactly zero value is unconstrained", "format(p, '.0f') (no decimals) falls to the "
                      "Quantity formatter and is not constrained"],
